@@ -115,7 +115,7 @@ def main():
         ],
         "checks": checks,
         "not_applicable": na,
-        "notes": "Genuine defects found and repaired: see known_findings.json (F1-F4, four `fix:` commits in /repo: 0e5f454, 9626c3f, 511db79, c29ee66). DESIGN.md records which seeded changes each check catches.",
+        "notes": "Genuine defects found and repaired: see known_findings.json (F1-F5, five `fix:` commits in /repo: 0e5f454, 9626c3f, 511db79, c29ee66, 0443e95). DESIGN.md records which seeded changes each check catches.",
     }
     json.dump(m, open(os.path.join(ROOT, "MANIFEST.json"), "w"), indent=1)
 
